@@ -64,11 +64,15 @@ def stf_vonKarman(r, L0):
         L0 is in unit of telescope diameter, typically a few (3; or 20m)
     '''
     r0 = 1
+    # At r = 0 the Bessel term below is 0 * inf, the structure function is 0
+    r = np.asarray(r, dtype=float)
+    zero_r = (r == 0)
+    r = np.where(zero_r, 1., r)
     D_vk = (0.17253 * (L0 / (r0)) ** (5. / 3.)
             * (1 - 2 * np.pi ** (5. / 6.) * ((r) / L0) ** (5. / 6.)
                / scipy.special.gamma(5. / 6.)
                * scipy.special.kv(5. / 6., (2 * np.pi * r) / L0)))
-    return D_vk
+    return np.where(zero_r, 0., D_vk)[()]
 
 
 def gkl_radii(ri, nr):
